@@ -6,27 +6,38 @@ import re
 
 HERE = os.path.dirname(os.path.dirname(os.path.abspath(__file__)))
 rows = []
+obsolete = []
 n = caught = 0
 for sid in sorted(os.listdir(os.path.join(HERE, 'seeded'))):
     p = os.path.join(HERE, 'seeded', sid, 'meta.json')
     if not os.path.exists(p):
         continue
     m = json.load(open(p))
+    if m.get('status') == 'obsolete':
+        # the repairs of /repo removed what the change needs (or made the same change deliberately): kept for the record
+        obsolete.append(sid)
+        rows.append('| %s | %s | (obsolete: %s) | - | caught before the repair by %s |' % (
+            sid, m['needs_to_manifest'].replace('|', '/')[:150], m.get('obsolete_note', '').split('. ', 1)[-1].replace('|', '/').replace('\n', ' ')[:160],
+            ', '.join(m.get('caught_by', [])) or '-'))
+        continue
     n += 1
     cb = m.get('caught_by', [])
     caught += bool(cb)
     missed_first = m.get('missed_at_first_by', [])
-    others = [c for c in m.get('checks_tried', []) if c not in cb]
+    others = [c for c in m.get('checks_tried', []) if c not in cb and c not in m.get('not_rerun', [])]
     note = ''
+    if m.get('not_rerun'):
+        note = 'last run stopped at the first check that reports it (not re-run: %s)' % ', '.join(m['not_rerun'])
     if missed_first:
-        note = 'missed at first by %s; check strengthened' % ', '.join(missed_first)
+        note = (note + '; ' if note else '') + 'missed at first by %s; check strengthened' % ', '.join(missed_first)
     if m.get('note'):
         note = (note + '; ' if note else '') + m['note']
     needs = m['needs_to_manifest'].replace('|', '/')
     rows.append('| %s | %s | %s | %s | %s |' % (sid, needs[:150], ', '.join(cb) or '**none**', ', '.join(others) or '-', note or '-'))
 table = ['| seeded change | needs, to manifest | caught by (quick tier) | also tried, silent | remarks |', '|---|---|---|---|---|'] + rows
 table.append('')
-table.append('%d seeded changes, %d caught by at least one quick check.' % (n, caught))
+table.append('%d live seeded changes, %d caught by at least one quick check; %d more are obsolete on the repaired tree (%s).' % (
+    n, caught, len(obsolete), ', '.join(obsolete)))
 s = open(os.path.join(HERE, 'DESIGN.md')).read()
 a = s.index('<!-- DETECTION-TABLE-BEGIN -->') + len('<!-- DETECTION-TABLE-BEGIN -->')
 b = s.index('<!-- DETECTION-TABLE-END -->')
